@@ -67,7 +67,8 @@ StepBad(e, A, X) ==
                    IF reg = {} THEN e.res # "none"
                    ELSE e.res # "some" \/ e.val # MinOf({oDl[f] : f \in reg}))
              \/ ("pub" \in DOMAIN e /\ e.pub.next # (IF reg = {} THEN 0 - 1 ELSE MinOf({oDl[f] : f \in reg})))
-             \/ (e.op = "delay" /\ e.val # (IF oNow + e.d >= INF THEN INF ELSE oNow + e.d))
+             \* a delay() that panics (no `val`) has not produced the saturated deadline either
+             \/ (e.op = "delay" /\ ("val" \notin DOMAIN e \/ e.val # (IF oNow + e.d >= INF THEN INF ELSE oNow + e.d)))
       c17 == \/ ("term" \in DOMAIN e /\ e.term # SetToSortedSeq({f \in Slots : A[f] = "done"}))
              \* threaded runs report is_terminated() of the polled future only
              \/ ("fterm" \in DOMAIN e /\ e.op = "poll" /\ e.fterm # (A[e.f] = "done"))
@@ -95,7 +96,7 @@ ObsStep(e) ==
   /\ oA' = A /\ oExp' = X /\ oLastW' = LW
   /\ oNow' = IF e.op = "set_clock" THEN e.t ELSE oNow
   /\ oDl' = CASE e.op = "create" -> [oDl EXCEPT ![e.f] = e.t]
-              [] e.op = "delay" -> [oDl EXCEPT ![e.f] = e.val]
+              [] e.op = "delay" -> [oDl EXCEPT ![e.f] = IF "val" \in DOMAIN e THEN e.val ELSE INF]
               [] e.op = "drop" -> [oDl EXCEPT ![e.f] = 0]
               [] OTHER -> oDl
   /\ oWoken' = [f \in Slots |-> W0[f] \/ (A[f] = "pending" /\
